@@ -10,8 +10,8 @@ import time
 VERIF = os.path.dirname(os.path.dirname(os.path.abspath(__file__)))
 REPO = os.environ.get("VERIF_REPO", "/repo")
 HARNESS_DIR = os.path.join(VERIF, "harness")
-EVIDENCE_DIR = os.path.join(VERIF, "evidence")
-OUT_DIR = os.path.join(VERIF, "out")  # replay artefacts + logs of the last run (git-ignored)
+EVIDENCE_DIR = os.environ.get("VERIF_EVIDENCE_DIR", os.path.join(VERIF, "evidence"))
+OUT_DIR = os.environ.get("VERIF_OUT_DIR", os.path.join(VERIF, "out"))  # replay artefacts + logs of the last run (git-ignored)
 KNOWN_FINDINGS = os.path.join(VERIF, "known_findings.json")
 
 _scratch = None
